@@ -26,7 +26,7 @@ func init() {
 // quartz stand-in: an idempotent keyed job set (timing is go-quartz's business and outside the claim)
 // ---------------------------------------------------------------------------------------------
 type vC19Quartz struct {
-	keys    [4]string
+	keys    [4]*quartz.JobKey
 	jobs    [4]quartz.Job
 	present [4]bool
 	paused  [4]bool
@@ -36,9 +36,8 @@ type vC19Quartz struct {
 var vC19_errNoJob = errors.New("verif: job not found")
 
 func (q *vC19Quartz) find(k *quartz.JobKey) int {
-	name := k.String()
 	for i := 0; i < 4; i++ {
-		if q.present[i] && q.keys[i] == name {
+		if q.present[i] && q.keys[i].Equals(k) {
 			return i
 		}
 	}
@@ -58,7 +57,7 @@ func (q *vC19Quartz) ScheduleJob(d *quartz.JobDetail, t quartz.Trigger) error {
 	if i < 0 {
 		return errors.New("verif: job set full")
 	}
-	q.keys[i], q.jobs[i], q.present[i], q.paused[i] = d.JobKey().String(), d.Job(), true, false
+	q.keys[i], q.jobs[i], q.present[i], q.paused[i] = d.JobKey(), d.Job(), true, false
 	return nil
 }
 func (q *vC19Quartz) GetJobKeys(...quartz.Matcher[quartz.ScheduledJob]) ([]*quartz.JobKey, error) {
